@@ -249,7 +249,9 @@ def run_instance(h, g, n, tag8, dep8, cfg, eid):
             # the same call.  The pops of the first sentence are counted on a call of its own (searches are deterministic).
             dn, dtag8, ddep8 = decoy[:3]
             nlong_before, nlong_after = (decoy[3], decoy[4]) if len(decoy) > 3 else (0, 0)
-            dtoks = [Token.of_word('d%d' % i) for i in range(dn)]
+            # the other sentence often has the very words of this one (w0 w1 ...) - with matrices of its own: what is admitted
+            # for a word is said by the scores given for THIS sentence, not by what the words look like
+            dtoks = [Token.of_word(('w%d' if (dn == n or (dn + n) % 2 == 0) else 'd%d') % i) for i in range(dn)]
             dsc = lambda: ScoringResult(np.array(dtag8, dtype=np.float32) / 8, np.array(ddep8, dtype=np.float32) / 8)
             # sentences longer than max_length (skipped by the parser: their own placeholder, no search) around the two
             kw['max_length'] = 6
@@ -369,8 +371,21 @@ def make_specs(prop, tier, rng):
             cfg['k'] = rng.choice([2, 3, 5])
         if prop == 'C16' or rng.random() < 0.2:
             # adversarial rows: scores clustered around the beta threshold, ties at the pruning boundary, flattened entries
+            deep = rng.random() < 0.25
+            if deep:
+                # rows of a very confident tagger: one ordinary best tag, every other tag so unlikely that its probability is 0
+                # in single precision (log p below -104) - pairwise different scores all the same, so with the beta filter off
+                # the pruning_size best are well defined and the cut falls among them
+                cfg = dict(cfg, usebeta=rng.random() < 0.3, prune=rng.choice([1, 2, 2, 3]))
             for i in range(n):
                 mode = rng.randrange(4)
+                if deep:
+                    vals = rng.sample(range(-1300, -840), len(tag8[i]))
+                    if rng.random() < 0.3:
+                        vals[rng.randrange(len(vals))] = -32768
+                    vals[rng.randrange(len(vals))] = rng.choice([0, -3, -8])
+                    tag8[i] = vals
+                    continue
                 best = rng.choice([0, -3, -8])
                 thr = cfg['b16'] / 2.0                          # 8 ln(1/beta)
                 if mode == 0:
